@@ -144,6 +144,12 @@ Theorem C10_fs_refuted_dump_with_session_set :
     /\ fs_dump false (fs_state false ops) p = DErr ENotFound
     /\ spec_dump (ref_state ops) p = DDump [(s2b "foo", s2b "code")].
 Proof. exact fs_refuted_dump_session_set. Qed.
+Theorem C10_fs_refuted_dump_without_session :
+  exists ops p, fs_hist_ok false spec_init ops = true /\ forallb put_key_nonempty ops = true
+    /\ dump_ok (ref_state ops) = false
+    /\ fs_dump false (fs_state false ops) p = DDump [(s2b "b1", s2b "v1"); (s2b "x.a1", s2b "v2")]
+    /\ spec_dump (ref_state ops) p = DDump [(s2b "b1", s2b "v1")].
+Proof. exact fs_refuted_dump_without_session. Qed.
 Theorem C10_fs_refuted_name_too_long :
   exists ops, hist_ok spec_init ops = true /\ wf_key (rep 120 255) = true
     /\ fs_hist_ok false spec_init ops = false
@@ -191,4 +197,5 @@ Print Assumptions C10_fs_refuted_binary_dump_stops_early.
 Print Assumptions C10_fs_refuted_dump_lists_translation_twice.
 Print Assumptions C10_fs_refuted_dump_fails_on_translation_only.
 Print Assumptions C10_fs_refuted_dump_with_session_set.
+Print Assumptions C10_fs_refuted_dump_without_session.
 Print Assumptions C10_fs_refuted_name_too_long.
